@@ -78,8 +78,12 @@ func (r *Run) add(rule, construct, pos, status, detail string) {
 }
 
 // ok / bad / check record obligations under the current rule.
-func (r *Run) ok(construct, pos, detail string) { r.add(r.curRule, construct, pos, "discharged", detail) }
-func (r *Run) bad(construct, pos, detail string) { r.add(r.curRule, construct, pos, "violated", detail) }
+func (r *Run) ok(construct, pos, detail string) {
+	r.add(r.curRule, construct, pos, "discharged", detail)
+}
+func (r *Run) bad(construct, pos, detail string) {
+	r.add(r.curRule, construct, pos, "violated", detail)
+}
 func (r *Run) undecided(construct, pos, detail string) {
 	r.add(r.curRule, construct, pos, "undecided", detail)
 }
@@ -253,14 +257,14 @@ func (r *Run) finish(outDir string, findings []Finding, seed int, wall float64, 
 		"distinct_nontrivial": len(r.nontriv),
 		"rule": "one obligation per (rule, construct) resolved in the type-checked go/ssa program of /repo; distinct = distinct rule|construct keys; " +
 			"non-trivial = the rule inspected at least one CFG path, dataflow chain, field set or call site for it (anchor-resolution failures are excluded)",
-		"explanation":        r.Explain,
-		"samples":            samples,
-		"rules":              rules,
-		"counters":           r.Counters,
-		"packages":           len(r.P.Pkgs),
+		"explanation":         r.Explain,
+		"samples":             samples,
+		"rules":               rules,
+		"counters":            r.Counters,
+		"packages":            len(r.P.Pkgs),
 		"functions_in_module": r.P.NFuncs,
-		"checker_cmd":        "/verif/check " + r.Prop + " " + r.Tier,
-		"trusted_base":       []string{"go/types", "golang.org/x/tools/go/ssa v0.29.0", "go/packages loader", "rule tables in /verif/tool (anchors confirmed by reading)"},
+		"checker_cmd":         "/verif/check " + r.Prop + " " + r.Tier,
+		"trusted_base":        []string{"go/types", "golang.org/x/tools/go/ssa v0.29.0", "go/packages loader", "rule tables in /verif/tool (anchors confirmed by reading)"},
 	}
 	for k, v := range r.Extra {
 		cov[k] = v
